@@ -122,7 +122,9 @@ FlatWorld(id) ==
         Pn(4, "zqzq.bin", 3, 2, "bin", "bin", ""),           \* 10
         Pn(6, "zqzq.bin", 3, 3, "bin", "bin", ""),           \* 11
         Pn(4, "data.pdf", 257, 9, "pdf", "pdf", ""),         \* 12
-        Ln(4, "rel", FALSE, <<"sub2", "index.html">>)        \* 13 link in a sub-directory with a relative target
+        Ln(4, "rel", FALSE, <<"sub2", "index.html">>),       \* 13 link in a sub-directory with a relative target
+        Pn(4, "k64.bin", 65536, 13, "bin", "bin", ""),       \* 14 exactly one 64 KiB block
+        Pn(4, "k64m.wav", 65535, 14, "wav", "wav", "")       \* 15 one byte short of it
       >>]
 
 C02Worlds == { MixWorld(21, FALSE), MixWorld(22, TRUE), FlatWorld(23) }
